@@ -1,10 +1,12 @@
 import Driver.Reader
+import Driver.Mirror
 open Driver
 
 def handle (line : String) : String :=
   match line.trimAscii.toString.splitOn " " with
   | ["reader", buf, ops] => readerLine buf ops
   | ["reader", buf] => readerLine buf ""
+  | ["mirror", proto, src, dst, port, max, payload] => mirrorLine proto src dst port max payload
   | _ => "bad-op"
 
 partial def loop (h : IO.FS.Stream) (out : IO.FS.Stream) : IO Unit := do
